@@ -57,10 +57,12 @@ def pDump : P (Option LS.Dump) := do
     let inf ← many nat; let peers ← many nat; let vp ← nat
     pure (some ⟨st, cc, ms, inf, peers, vp⟩)
 
+/-- a parked request: the follower's id, and the request; the address it was sent to travels in the
+    request's `leader` field (the leader's own address is not part of what is compared) -/
 def pPending : P (Nat × AEReq) := do
-  let p ← nat; let tm ← nat; let pi ← nat; let pt ← nat; let cm ← nat
+  let p ← nat; let ad ← nat; let tm ← nat; let pi ← nat; let pt ← nat; let cm ← nat
   let es ← many pSvEntry
-  pure (p, ⟨selfAddr, selfId, tm, pi, pt, cm, es⟩)
+  pure (p, ⟨ad, selfId, tm, pi, pt, cm, es⟩)
 
 structure LIObs where
   o : IObs
@@ -130,12 +132,13 @@ def lmonFor : String → List LMonitor
   | "C17" => [LS.nothingStranded]
   | "C18" => [LS.notifyFaithful]
   | "C04" => [fun st => at2 "leader" (LS.requestsFromLog st 0), fun st => at2 "leader" (LS.requestsSpeakForLedTerm st none 0)]
-  | "C12" => [fun st => at2 "leader" (LS.requestsFromLog st 0)]
+  | "C12" => [fun st => at2 "leader" (LS.requestsFromLog st 0), fun st => at2 "leader" (LS.requestsToCurrentAddress st 0)]
   | "C01" => [fun st => at2 "membership" (LS.oneChangeAtATime st false 0), fun st => at2 "leader" (LS.requestsSpeakForLedTerm st none 0)]
   | _ => [fun st => at2 "commit" (LS.commitRule st 0), fun st => at2 "membership" (LS.oneChangeAtATime st false 0),
           fun st => at2 "membership" (LS.stalePrevRefused st 0),
           fun st => at2 "client" (LS.ackExact (lp st) 0 (lp st)), fun st => LS.ackOrder (lp st), fun st => LS.fsmInOrder (lp st), LS.verifyFresh, LS.nothingStranded,
-          LS.notifyFaithful, fun st => at2 "leader" (LS.requestsFromLog st 0), fun st => at2 "leader" (LS.requestsSpeakForLedTerm st none 0)]
+          LS.notifyFaithful, fun st => at2 "leader" (LS.requestsFromLog st 0), fun st => at2 "leader" (LS.requestsSpeakForLedTerm st none 0),
+          fun st => at2 "leader" (LS.requestsToCurrentAddress st 0)]
 
 def lfirstSome (st : List LS.LStep) : List LMonitor → Option String
   | [] => none
